@@ -175,4 +175,26 @@ def run(ctx):
     run.floor("C01.R4", "depth sites", len(forms), 4)
     for nm, f in sorted(forms.items()):
         run.inst("C01.R4", "depth:" + nm, f == want, "%s = %s*resolution + %s (must be resolution - FIRST_HILBERT_RESOLUTION + 1 = (1, %d))" % (nm, f and f[0], f and f[1], 1 - first), w)
+    # ---- R5: the point-in-pentagon test classifies by the sign of the cross product: threshold exactly 0
+    CP = "a5::geometry::pentagon::PentagonShape::contains_point"
+    if CP not in facts.fns:
+        run.missing("C01.R5", CP)
+    else:
+        fc = fn_terms(facts, CP)
+        tests = []
+        for b in sorted(fc.cfg.reach):
+            t = fc.blocks[b]["term"]
+            if t["k"] != "switch":
+                continue
+            d = fc.switch_term(b)
+            if d[0] == "bin" and d[1] in ("Lt", "Le", "Gt", "Ge") and (fc.tyof(d[2]) in ("f64", "f32")):
+                # the classification test: compares a product-difference (cross product) with a constant
+                side = [x for x in (d[2], d[3]) if const_float(x) is not None]
+                other = [x for x in (d[2], d[3]) if const_float(x) is None]
+                if len(side) == 1 and len(other) == 1 and other[0][0] == "bin" and other[0][1] == "Sub":
+                    tests.append((const_float(side[0]), d))
+        okz = len(tests) == 1 and tests[0][0] == 0.0
+        run.inst("C01.R5", "containment-threshold-zero", okz,
+                 "contains_point compares the edge cross product with %s (must be exactly 0: the product scales with 4^-resolution, so any absolute tolerance admits every nearby cell at fine resolutions)" % [t[0] for t in tests],
+                 where(fc.fn["span"]))
     run.floor("C01", "rule instances", len(run.instances), 12)
